@@ -67,6 +67,21 @@ def gen(rng, tier):
         if st["hist"]: cmds += [st["hist"], "errloc"]
         k = len(tree) + len(st["pre"])
         out.append(Scenario(cmds, [False] * k + [True] * (len(cmds) - k), tags=("layered",)))
+    # the caller's check callback reads with the library itself (a policy configuration of its own) before it accepts
+    # every file: the location reported for the malformed file of the OUTER read is still that file's
+    for _ in range(n // 8):
+        st = laylib.setup(rng, mode=rng.choice([0, 1, 2]))
+        tree = laylib.inject_bad_line(rng, st["cmds"])
+        nest = [trees.fsdir(b"/pol/usr"), trees.fsdir(b"/pol/etc"), trees.fsfile(b"/pol/usr/policy.conf", b"allow=1\nmore=2\nthird=3\n")]
+        for dd in (b"/pol/etc/policy.conf.d", b"/pol/etc/policy.d", b"/pol/etc/policy/conf.d", b"/pol/etc/policy.x"):
+            nest += [trees.fsdir(dd), trees.fsfile(dd + b"/allow.conf", b"# the list\n\nallowed=yes\nother=1\nand=2\n6=6\n7=7\n")]
+        nest += ["cb reject", "cbnest %s %s %s %s" % (enc(b"/pol/usr"), enc(b"/pol/etc"), enc(b"policy"), enc(b"conf"))]
+        cmds = tree + st["pre"] + nest + [st["read"], "errloc", "dump 0"]
+        if st["hist"]: cmds += [st["hist"], "errloc"]
+        k = len(tree) + len(st["pre"]) + len(nest)
+        sc = Scenario(cmds, [False] * k + [True] * (len(cmds) - k), tags=("nested-callback",))
+        sc.nested = True
+        out.append(sc)
     # a missing file gives file-not-found however it is missing: no such name, a path component that is a regular file,
     # a component longer than NAME_MAX, a dangling link; also as one layer of a layered read whose other layer is fine
     for _ in range(20 if tier == "quick" else 400):
